@@ -246,6 +246,92 @@ def redecode(ctx, rule='A5x'):
                f'{fn.module.relpath}:{c.lineno}', 'the analyzer receives the fixed-dimension flags', short(c, 120))
 
 
+def candidate_errors(ctx, rule='A5q'):
+    """The fast encoder decodes by trying the given vector and then its neighbours, which are arbitrary vectors of
+    the declared space: one that selects an option which necessarily confirms two incompatible nodes gives an
+    infeasible graph in which the remaining choices are never activated.  Such a candidate has to reach the
+    feasibility test of the loop (rejected, next one tried); an explicit error raised while a candidate is built
+    ends the decode of a feasible design space.  Every `raise` in the loop body and in the helpers of the unit the
+    loop body calls is therefore (a) of a type the loop catches, (b) guarded by the feasibility of the graph built so
+    far, or (c) guarded by the candidate holding the inactive marker (not a value of the declared space)."""
+    fn = ctx.fn(f'{FAST}.get_graph')
+    loops = [s for s in walk_no_nested(fn.node) if isinstance(s, ast.For) and
+             any(isinstance(c, ast.Call) and call_name(c) == '_iter_neighborhood' for c in ast.walk(s.iter))]
+    if len(loops) != 1:
+        raise AnalysisError(f'{rule} {fn.key}: expected one loop over the neighbourhood iterator, found {len(loops)}')
+    loop = loops[0]
+    unit = {f.node.name: f for f in unit_functions(ctx.prog, fn) if f is not fn}
+    body_nodes = [n for st in loop.body for n in walk_no_nested(st)]
+    attempt, frontier = {}, [call_name(c) for c in body_nodes if isinstance(c, ast.Call)]
+    while frontier:
+        nm = frontier.pop()
+        if nm in unit and nm not in attempt and nm != '_iter_neighborhood':
+            attempt[nm] = unit[nm]
+            frontier += [call_name(c) for c in walk_no_nested(unit[nm].node) if isinstance(c, ast.Call)]
+    if not attempt:
+        raise AnalysisError(f'{rule} {fn.key}: the candidate loop builds no graph through a function of the unit')
+    caught = set()
+    for t in body_nodes:
+        if isinstance(t, ast.Try) and any(isinstance(c, ast.Call) and call_name(c) in attempt
+                                          for st in t.body for c in ast.walk(st)):
+            for h in t.handlers:
+                caught |= set(handler_type_names(h))
+
+    def guard(atom, truth):
+        if truth is True and isinstance(atom, ast.Attribute) and atom.attr == 'feasible' and \
+                isinstance(atom.value, ast.Name):
+            return True
+        if isinstance(atom, ast.Compare) and len(atom.ops) == 1 and \
+                isinstance(atom.ops[0], (ast.Eq, ast.NotEq)) and \
+                any(norm(x) == 'X_INACTIVE_VALUE' or guards.is_minus_one(x)
+                    for x in (atom.left, atom.comparators[0])):
+            return truth is isinstance(atom.ops[0], ast.Eq)
+        return False
+
+    n = 0
+    for g, inside in [(f, None) for f in attempt.values()] + [(fn, loop)]:
+        scope = walk_no_nested(g.node) if inside is None else body_nodes
+        raises = [r for r in scope if isinstance(r, ast.Raise)]
+        if not raises:
+            continue
+        cfg = build_cfg(g)
+        tested = {a.value.id for a in walk_no_nested(g.node) if isinstance(a, ast.Attribute) and
+                  a.attr == 'feasible' and isinstance(a.value, ast.Name)}
+        for i, r in enumerate(raises):
+            if r.exc is None:
+                raise AnalysisError(f'{rule} {g.key}: bare re-raise at L{r.lineno} not understood')
+            tname = norm(r.exc.func) if isinstance(r.exc, ast.Call) else norm(r.exc)
+            n += 1
+            key = f'candidate-error:{g.node.name}:{tname}#{i}'
+            desc = ('an explicit error while a candidate vector of the neighbourhood is built is raised only for a '
+                    'graph that is still feasible (an infeasible candidate is rejected by the loop and the next one '
+                    'tried), for a candidate holding the inactive marker, or is of a type the loop catches')
+            if tname in caught or '<bare>' in caught or 'Exception' in caught:
+                ctx.ob(rule, fkey(g, rule, key), True, f'{g.module.relpath}:{r.lineno}', desc,
+                       f'{tname} is caught by the candidate loop')
+                continue
+            sinks = [nd for nd in cfg.nodes if nd.kind == 'stmt' and nd.ast is r]
+            guards.check_guarded(ctx, rule, g, sinks, guard, tested, key, desc)
+    # the next choice of a candidate is applied only to a graph that passed the feasibility test: an infeasible
+    # graph still reports choices as active whose nodes the failed derivation removed
+    for g in list(attempt.values()) + [fn]:
+        cfg = build_cfg(g)
+        applies = [nd for nd in cfg.nodes if any(
+            isinstance(c, ast.Call) and call_name(c) == 'get_for_apply_selection_choice' and
+            isinstance(c.func, ast.Attribute) and isinstance(c.func.value, ast.Name)
+            for e in node_exprs(nd) if e is not None for c in ast.walk(e))]
+        for nd in applies:
+            recv = next(c.func.value.id for e in node_exprs(nd) if e is not None for c in ast.walk(e)
+                        if isinstance(c, ast.Call) and call_name(c) == 'get_for_apply_selection_choice')
+            n += 1
+            guards.check_guarded(ctx, rule, g, [nd], decode._feasible_fact(recv), {recv},
+                                 f'candidate-step-on-feasible-graph:{g.node.name}',
+                                 f'while a candidate vector is built the next selection choice is applied to '
+                                 f'`{recv}` only after its `.feasible` test succeeded (an infeasible intermediate '
+                                 f'graph ends the construction; the loop rejects the candidate)')
+    return n
+
+
 def linked_collapse(ctx, rule='A5l'):
     fn = ctx.fn(f'{FAST}._get_selection_choice_is_forced')
     txt = FnText(ctx, fn)
@@ -370,6 +456,8 @@ def check(ctx):
     neighbourhood(ctx)
     forwarding(ctx)
     redecode(ctx)
+    candidate_errors(ctx)
+    ctx.floor('A5q', 3, 'explicit errors while a candidate vector is built')
     linked_collapse(ctx)
     roots = [ctx.fn(f'{GP}.get_graph')]
     sl, _ = decode.decode_slice(ctx)
@@ -397,6 +485,17 @@ def check(ctx):
 from ..selftest import V  # noqa: E402
 
 VARIANTS = [
+    V('infeasible-candidate-is-an-error', 'optimization/hierarchy/fast.py',
+      [("            if graph.feasible and len([node for node in graph.choice_nodes", "            if len([node for node in graph.choice_nodes")],
+      key='candidate-error'),
+    V('infeasible-candidate-keeps-stepping', 'optimization/hierarchy/fast.py',
+      [("                if not graph.feasible:\n                    break\n\n", "")], key='candidate-step-on-feasible-graph'),
+    V('infeasible-candidate-loop-condition', 'optimization/hierarchy/fast.py',
+      [("            while True:\n                # An infeasible graph cannot be completed: it is rejected below and the next neighbor is tried\n                if not graph.feasible:\n                    break\n\n",
+        "            while graph.feasible:\n")], expect='silent', why='the feasibility test as the loop condition'),
+    V('infeasible-candidate-returned-early', 'optimization/hierarchy/fast.py',
+      [("                if not graph.feasible:\n                    break\n\n", "                if not graph.feasible:\n                    return tuple(taken_sel_opt), graph\n\n")],
+      expect='silent', why='early return of the infeasible graph instead of break'),
     V('constraint-without-open-choice-indexed', 'optimization/hierarchy/fast.py',
       [("            i_choices = sorted([i_choice_nodes[node] for node in choice_constraint.nodes if node in i_choice_nodes])\n            if len(i_choices) <= 1:\n                continue\n",
         "            if len(choice_constraint.nodes) <= 1:\n                continue\n            i_choices = sorted([i_choice_nodes[node] for node in choice_constraint.nodes if node in i_choice_nodes])\n")], key='A10e'),
